@@ -202,6 +202,7 @@ def _gen_world(r):
     # whatever the converter does with it, the original handed in must stay recoverable
     w["time_4dec"] = r.random() < 0.25      # the duration written with four decimals, as the acquisition software does (the exact count is then only in the size)
     w["prelude_conv"] = r.random() < 0.12   # an earlier conversion in the same process: same probe (serial), another site-to-shank layout
+    w["underscore_names"] = r.random() < 0.08     # m1_g0_t0_imec0_ap.bin: the band token without the dots
     w["uuid_names"] = r.random() < 0.12     # *.imec0.ap.<uuid>.bin, as files are named on the archive
     w["extremes"] = r.random() < 0.3      # corners of int16 and runs of zeros in the content
     w["stale_cbin"] = kind in ("NP21", "NP24", "NP24_1sh") and w["form"] == "bin" and w["meta_claim"] is None and r.random() < 0.15
@@ -275,13 +276,14 @@ class World:
         world.write_recording(self.pdir, STEM, fixture, self.O, shank_of=w["shank_of"], claimed_ns=claimed,
                               time_decimals=(4 if w.get("time_4dec") else None))
         self.U = UUID if (w.get("uuid_names") and kind != "split") else ""
-        self.bin = self.pdir / f"{STEM}.ap{self.U}.bin"
-        self.cbin = self.pdir / f"{STEM}.ap{self.U}.cbin"
-        self.ch = self.pdir / f"{STEM}.ap{self.U}.ch"
-        self.meta = self.pdir / f"{STEM}.ap{self.U}.meta"
-        if self.U:
+        self.underscore = bool(w.get("underscore_names")) and kind != "split" and not self.U     # band token written "_ap" instead of ".ap."
+        self.bin = self.pdir / self.fn("ap", ".bin")
+        self.cbin = self.pdir / self.fn("ap", ".cbin")
+        self.ch = self.pdir / self.fn("ap", ".ch")
+        self.meta = self.pdir / self.fn("ap", ".meta")
+        if self.U or self.underscore:
             for ext in ("bin", "meta"):
-                (self.pdir / f"{STEM}.ap.{ext}").rename(self.pdir / f"{STEM}.ap{self.U}.{ext}")
+                (self.pdir / f"{STEM}.ap.{ext}").rename(self.pdir / self.fn("ap", "." + ext))
         if kind == "split":
             self._make_split()
         if w["form"] == "cbin":
@@ -311,6 +313,12 @@ class World:
             so = np.array(w["shank_of"])
             for sh in sorted(set(w["shank_of"])):
                 self.shanks[int(sh)] = np.r_[np.where(so == sh)[0], self.nap]
+
+    def fn(self, band, ext):
+        """file name of a band ('ap' / 'lf') with extension ext ('.bin', '.cbin', '.ch', '.meta') in this world's naming"""
+        if getattr(self, "underscore", False):
+            return f"m1_g0_t0_imec0_{band}{ext}"
+        return f"{STEM}.{band}{self.U}{ext}"
 
     def _make_split(self):
         """already-split input: the AP output of an earlier conversion handed back in."""
@@ -365,8 +373,8 @@ class World:
     def _load_ap(self, d, want_cols):
         """AP data of a shank folder by the simulator's own means (.bin bytes or decoded .cbin)."""
         outs = []
-        b = d / f"{STEM}.ap{self.U}.bin"
-        c = d / f"{STEM}.ap{self.U}.cbin"
+        b = d / self.fn("ap", ".bin")
+        c = d / self.fn("ap", ".cbin")
         if b.exists() and b.stat().st_size == self.w["ns"] * want_cols * 2:
             outs.append(np.fromfile(b, dtype=np.int16).reshape(-1, want_cols))
         if c.exists():
@@ -529,7 +537,7 @@ def _exec_step(W, st, model, log, stats, bump, seed):
         st["fault"] = fault
     before = snapshot(W.root)
     sig_before = W.tree_sig()
-    fresh = not any(k.startswith(LABEL + c) and "_trial/" not in k for k in before for c in "abcd") and not any(".lf." in k and "_trial/" not in k for k in before)
+    fresh = not any(k.startswith(LABEL + c) and "_trial/" not in k for k in before for c in "abcd") and not any((".lf." in k or "_lf." in k) and "_trial/" not in k for k in before)
     res = session.run_step(W.root, do_step, st, fault, W.cfg, pool_seed, pre=instrument)
     stats["steps"] += len(res["events"])
     stats["sim_time"] = stats.get("sim_time", 0.0) + float(res.get("clock") or 0.0)      # simulated seconds the system spent sleeping / waiting
@@ -689,8 +697,8 @@ def _check_outputs(W, st, sig0, ctx):
             if kind == "NP21" and band == "ap":
                 continue
             ext = ".cbin" if st["compress"] else ".bin"
-            f = d / f"{STEM}.{band}{W.U}{ext}"
-            m = d / f"{STEM}.{band}{W.U}.meta"
+            f = d / W.fn(band, ext)
+            m = d / W.fn(band, ".meta")
             rel = os.path.relpath(f, W.root)
             if not f.exists() or not m.exists() or (st["compress"] and not f.with_suffix(".ch").exists()):
                 raise Violation("C04.S4", f"{sig0}:missing-output:{band}", f"{rel} (or its .meta/.ch) missing after a run that returned 1 | " + ctx)
@@ -834,7 +842,7 @@ def shrink_candidates(plan):
                     c["steps"][i]["fault"] = {"auto": True, "rseed": 7}
                 yield c
     w = plan["world"]
-    for key, val in (("prelude_conv", False), ("uuid_names", False), ("stale_cbin", False), ("meta_claim", None), ("ns", 1000), ("nap", 4), ("form", "bin")):
+    for key, val in (("underscore_names", False), ("prelude_conv", False), ("uuid_names", False), ("stale_cbin", False), ("meta_claim", None), ("ns", 1000), ("nap", 4), ("form", "bin")):
         if w.get(key) != val:
             c = dict(plan)
             c["world"] = dict(w)
